@@ -1,8 +1,65 @@
 ---- MODULE NanoTypeLib ----
-(* Static signatures of the standard library functions specified in NanoLib.tla:                 *)
-(* LibBuiltinType(name, ts) = result type, or Err("arity") / Err("argtype").                      *)
+(* Static signatures of the standard library functions specified in NanoLib.tla (and of the higher-order  *)
+(* functions filter / map / reduce specified in NanoSem.tla):                                             *)
+(* LibBuiltinType(name, ts) = result type, or Err("arity") / Err("argtype").                              *)
+(* The signatures are those of docs/STDLIB.md.  (The real checker knows the names and the arity of the    *)
+(* functions it registers, but compares no argument type of a builtin: known finding F34.)                *)
 EXTENDS Integers, Sequences, FiniteSets, TLC, NanoTy
 
-LibBuiltinsT == {}
-LibBuiltinType(name, ts) == Err("scope")
+TList(t) == Ty("list", "", <<t>>)              \* List<int>, List<string>
+ListFnsT(p) == {p \o "_new", p \o "_with_capacity", p \o "_push", p \o "_pop", p \o "_get", p \o "_set", p \o "_insert",
+                p \o "_remove", p \o "_length", p \o "_capacity", p \o "_is_empty", p \o "_clear", p \o "_free"}
+CharFnsT == {"is_digit", "is_alpha", "is_alnum", "is_whitespace", "is_upper", "is_lower"}
+HofT == {"filter", "map", "reduce"}
+LibBuiltinsT == CharFnsT \cup {"digit_value", "char_to_lower", "char_to_upper", "cast_int", "cast_bool", "cast_string", "to_string",
+                               "array_new", "array_slice", "array_remove_at"}
+                \cup ListFnsT("list_int") \cup ListFnsT("list_string") \cup HofT
+
+Castable(t) == t.k \in {"int", "bool", "str", "float", "enum"}        \* `value: any` of the conversion functions: the scalar types
+IsIntT(t) == t = TInt \/ t.k = "enum"                                  \* 3.4.2: enum constants are integers
+
+ListType(p, et, name, ts) ==
+   LET n == Len(ts)
+       op == SubSeq(name, Len(p) + 2, Len(name))
+       lt == TList(et)
+       A(k, res, ok) == IF n # k THEN Err("arity") ELSE IF ok THEN res ELSE Err("argtype") IN
+   CASE op = "new" -> A(0, lt, TRUE)
+     [] op = "with_capacity" -> A(1, lt, n = 1 /\ IsIntT(ts[1]))
+     [] op = "push" -> A(2, TVoid, n = 2 /\ ts[1] = lt /\ Compat(et, ts[2]))
+     [] op = "pop" -> A(1, et, n = 1 /\ ts[1] = lt)
+     [] op = "get" -> A(2, et, n = 2 /\ ts[1] = lt /\ IsIntT(ts[2]))
+     [] op = "set" -> A(3, TVoid, n = 3 /\ ts[1] = lt /\ IsIntT(ts[2]) /\ Compat(et, ts[3]))
+     [] op = "insert" -> A(3, TVoid, n = 3 /\ ts[1] = lt /\ IsIntT(ts[2]) /\ Compat(et, ts[3]))
+     [] op = "remove" -> A(2, TVoid, n = 2 /\ ts[1] = lt /\ IsIntT(ts[2]))
+     [] op \in {"length", "capacity"} -> A(1, TInt, n = 1 /\ ts[1] = lt)
+     [] op = "is_empty" -> A(1, TBool, n = 1 /\ ts[1] = lt)
+     [] op \in {"clear", "free"} -> A(1, TVoid, n = 1 /\ ts[1] = lt)
+     [] OTHER -> Err("scope")
+
+LibBuiltinType(name, ts) ==
+   LET n == Len(ts) IN
+   CASE name \in CharFnsT -> IF n # 1 THEN Err("arity") ELSE IF IsIntT(ts[1]) THEN TBool ELSE Err("argtype")
+     [] name \in {"digit_value", "char_to_lower", "char_to_upper"} -> IF n # 1 THEN Err("arity") ELSE IF IsIntT(ts[1]) THEN TInt ELSE Err("argtype")
+     [] name = "cast_int" -> IF n # 1 THEN Err("arity") ELSE IF Castable(ts[1]) THEN TInt ELSE Err("argtype")
+     [] name = "cast_bool" -> IF n # 1 THEN Err("arity") ELSE IF Castable(ts[1]) THEN TBool ELSE Err("argtype")
+     [] name \in {"cast_string", "to_string"} -> IF n # 1 THEN Err("arity") ELSE IF Castable(ts[1]) THEN TStr ELSE Err("argtype")
+     \* array_new(size: int, default: T) -> array<T>
+     [] name = "array_new" -> IF n # 2 THEN Err("arity") ELSE IF IsIntT(ts[1]) /\ ts[2].k \notin {"void", "any"} THEN TArr(ts[2]) ELSE Err("argtype")
+     \* array_slice(arr: array<T>, start: int, length: int) -> array<T>
+     [] name = "array_slice" -> IF n # 3 THEN Err("arity") ELSE IF ts[1].k = "arr" /\ IsIntT(ts[2]) /\ IsIntT(ts[3]) THEN ts[1] ELSE Err("argtype")
+     \* array_remove_at(arr: mut array<T>, index: int): the array itself (DYNAMIC_ARRAYS) / a statement (STDLIB)
+     [] name = "array_remove_at" -> IF n # 2 THEN Err("arity") ELSE IF ts[1].k = "arr" /\ IsIntT(ts[2]) THEN ts[1] ELSE Err("argtype")
+     \* filter(arr: array<T>, predicate: fn(T) -> bool) -> array<T>
+     [] name = "filter" -> IF n # 2 THEN Err("arity")
+                           ELSE IF ts[1].k = "arr" /\ ts[1].a[1].k # "any" /\ ts[2] = Ty("fn", "", <<ts[1].a[1], TBool>>) THEN ts[1] ELSE Err("argtype")
+     \* map(arr: array<T>, f: fn(T) -> U) -> array<U>
+     [] name = "map" -> IF n # 2 THEN Err("arity")
+                        ELSE IF ts[1].k = "arr" /\ ts[1].a[1].k # "any" /\ ts[2].k = "fn" /\ Len(ts[2].a) = 2 /\ ts[2].a[1] = ts[1].a[1] /\ ts[2].a[2].k # "void"
+                             THEN TArr(ts[2].a[2]) ELSE Err("argtype")
+     \* reduce(arr: array<T>, init: U, f: fn(U, T) -> U) -> U
+     [] name = "reduce" -> IF n # 3 THEN Err("arity")
+                           ELSE IF ts[1].k = "arr" /\ ts[1].a[1].k # "any" /\ ts[3] = Ty("fn", "", <<ts[2], ts[1].a[1], ts[2]>>) THEN ts[2] ELSE Err("argtype")
+     [] name \in ListFnsT("list_int") -> ListType("list_int", TInt, name, ts)
+     [] name \in ListFnsT("list_string") -> ListType("list_string", TStr, name, ts)
+     [] OTHER -> Err("scope")
 ====
